@@ -162,6 +162,7 @@ def run_property(pid, tier="quick", seed=0, relock=False, only=None, verbose=Tru
 
     # ---- 4. failed obligations
     failed = [(cx, o) for cx, o in real if o.status != "unsat"]
+    undecided_cx = {}
     for cx, o in failed:
         if o.status == "error":
             res.errors.append(("crash", f"{o.oid}: solver error {o.reason[:300]}"))
@@ -175,6 +176,26 @@ def run_property(pid, tier="quick", seed=0, relock=False, only=None, verbose=Tru
             res.violations.append({"cx": cx, "o": o})
         else:
             res.undecided.append(o)
+            undecided_cx.setdefault(cx.fn, (cx, o))
+
+    # ---- 4a. an undecided obligation of a function that has a runtime form of its contract: search for an input on
+    # which the real function breaks that contract.  A found input is a violation (it replays on the real code);
+    # nothing found leaves the obligation undecided.
+    for fn, (cx, o) in undecided_cx.items():
+        rt = getattr(cx.c, "runtime", None) if hasattr(cx, "c") else None
+        if rt is None:
+            continue
+        r = run_native("runtime_check.py", {"module": rt["module"], "name": rt["name"], "seed": seed,
+                                            "count": rt.get("replay_count", 20000), "time_s": 60}, timeout=900,
+                       asan=rt.get("asan", False))
+        js = r["json"] or {}
+        if js.get("failures"):
+            path = write_replay(pid, o.oid, {"property": pid, "obligation": o.oid, "answer": o.status, "reason": o.reason,
+                                             "why": "the obligation could not be decided by the solvers; the runtime form "
+                                                    "of the same contract fails on the real function for this input",
+                                             "failing_input": js["failures"][0], "all": js["failures"][:10]})
+            res.violations.append({"replay": path})
+            res.undecided = [u for u in res.undecided if u.fn != fn]
 
     # ---- 4b. contracts that could not be attached: search with the runtime form of the contract
     for c in res.unattached:
